@@ -476,7 +476,10 @@ def run(ctx):
                     # exactly the element kinds that inherit it
                     content = {c_.name for k in kinds for c_ in M.oxml_classes() if k.cls in prog.mro(c_) and M.tags_for_class(c_)} \
                         or {k.cls.name for k in kinds}
-                    doc_order = dotted(g.elt) == g.generators[0].target.id
+                    elt_ = g.elt
+                    while isinstance(elt_, ast.Call) and dotted(elt_.func) in ("cast", "typing.cast") and len(elt_.args) == 2:
+                        elt_ = elt_.args[1]      # a typing cast hands on the element itself
+                    doc_order = dotted(elt_) == g.generators[0].target.id
     want_c = {"CT_RegularTextRun", "CT_TextLineBreak", "CT_TextField"}
     if not seen_cc:
         ctx.error("CT_TextParagraph.content_children", "selection of the content children not recognised")
